@@ -325,13 +325,15 @@ def setSequenceChar (i j : Int) (c : Byte) (b : Bag) : Bag × Bool :=
       if j < 0 || j ≥ r.seq.length then (b, true)
       else ({ b with rows := b.rows.set i.toNat { r with seq := setAt r.seq j.toNat c } }, false)
 
-/-- `TrimSequences` -/
-def trimSequences (n : Int) (fromStart : Bool) (b : Bag) : Bag × Bool :=
-  if n < 0 then (b, true)
-  else if n ≥ b.length then (b, true)
+/-- `TrimSequences`; `none` = slice-bounds panic (a row shorter than the trim size, possible only
+after an operation that reported an error left the rows ragged) -/
+def trimSequences (n : Int) (fromStart : Bool) (b : Bag) : Option (Bag × Bool) :=
+  if n < 0 then some (b, true)
+  else if n ≥ b.length then some (b, true)
+  else if b.rows.any (fun r => r.seq.length < n.toNat) then none
   else
     let b' := mapSeqs (fun s => if fromStart then s.drop n.toNat else s.take (s.length - n.toNat)) b
-    ({ b' with length := b.length - n }, false)
+    some ({ b' with length := b.length - n }, false)
 
 /-- `Append(al)`: `al`'s rows added until the first error -/
 def appendRows (other : List (String × Seq)) (b : Bag) : Bag × Bool := addAllStop b other
